@@ -262,6 +262,12 @@ func confirmDeath(id string, seed int64, bin, scratch string, r workerResult) st
 	if rr.stats != nil || rr.timedOut {
 		return "" // did not die again: not reproducible, reported as trouble by the caller
 	}
+	if harnessOwnPanic(rr.output) {
+		// the panicking goroutine is a simulated client of the harness and has no frame of the
+		// code under test on its stack: a defect of the machinery, not a finding
+		fmt.Fprintf(os.Stderr, "verif: the worker died in the harness's own client code:\n%s\n", tail(rr.output, 2500))
+		return ""
+	}
 	rp.Death = tail(rr.output, 6000)
 	rp.Note = "the worker process was killed while running this case (a panic or fatal error in the system under test takes the whole process down); replay: verif replay <this file>"
 	out := filepath.Join(verifDir, "replays", id)
@@ -270,6 +276,20 @@ func confirmDeath(id string, seed int64, bin, scratch string, r workerResult) st
 	jb, _ := json.MarshalIndent(rp, "", " ")
 	os.WriteFile(path, jb, 0o644)
 	return path
+}
+
+// harnessOwnPanic: the goroutine that panicked (the first one printed) runs a scripted client
+// of the harness and nothing of fingerproxy.
+func harnessOwnPanic(out string) bool {
+	i := strings.Index(out, "\ngoroutine ")
+	if i < 0 || !(strings.Contains(out[:i], "panic:") || strings.Contains(out[:i], "fatal error:")) {
+		return false
+	}
+	blk := out[i+1:]
+	if j := strings.Index(blk, "\n\n"); j >= 0 {
+		blk = blk[:j]
+	}
+	return strings.Contains(blk, "verif/harness.(*Client).") && !strings.Contains(blk, "github.com/wi1dcard/fingerproxy")
 }
 
 func writeEvidence(id, tier string, seed int64, agg *WorkerStats, distinct int, wall, buildS float64, violations, workers int, enumStride int) {
